@@ -20,7 +20,8 @@
    `_partial` because (2) also needs "the recovered STATE is the serial state", which does not
    hold: recovery lets the update with the highest logical time win, the time is drawn BEFORE the
    update is logged and applied under another lock, so two operations on one tuple can be applied
-   in the opposite order of their times (C15_refuted_time_order, also with the fix; known finding,
+   in the opposite order of their times (C15_refuted_time_order and C15_refuted_acked_delete_lost —
+   an acknowledged delete comes back after a restart —, also with the fix; known finding,
    class 2 of the checker: executions in which the model's `inverted` flag is raised).
    C15_refuted_append_window: on the pinned tree even the update-level durability fails (class 1,
    repaired).  Both refutations were replayed on the real code (crash = copy of the data directory
@@ -85,6 +86,24 @@ Proof.
   vm_compute. split; [repeat constructor | auto].
 Qed.
 
+(* the same race in the other direction loses an ACKNOWLEDGED DELETE: the delete of 101 draws time
+   2 and is logged, the insert of [100;101] draws time 3, is logged and applied, then the delete
+   is applied: it finds 101 (it reports 1 deleted tuple, i.e. the serial order insert;delete) and
+   101 is not served any more; recovery lets time 3 win and 101 is back after a restart *)
+Theorem C15_refuted_acked_delete_lost :
+  exists (progs : list (list pop)) (sched : list nat),
+    let r := run_sched (pstep true 0) sched (map pinit_l progs) pinit_g in
+    Forall (fun l => ptodo l = []) (fst r) /\
+    In (2, PRDel 1) (concat (map presults (fst r))) /\
+    existsb (pfact_eqb (0, 101)) (liveP (snd r)) = false /\
+    existsb (pfact_eqb (0, 101)) (recover (disk (snd r))) = true /\
+    inverted (snd r) = true.
+Proof.
+  exists [[PIns 1 0 [102]; PDel 2 0 [101]]; [PIns 3 0 [100; 101]]],
+         [0; 0; 0; 0; 0; 0; 1; 1; 1; 1; 0; 0]%nat.
+  vm_compute. split; [repeat constructor | split; [right; left; reflexivity | auto]].
+Qed.
+
 (* non-vacuity: the same programs and schedule as C15_refuted_append_window with the fix: both
    acknowledged updates are on disk and recovery serves all three tuples *)
 Example C15_nonvacuous :
@@ -99,3 +118,4 @@ Print Assumptions C15_durable_updates_partial.
 Print Assumptions C15_persist_invariant.
 Print Assumptions C15_refuted_append_window.
 Print Assumptions C15_refuted_time_order.
+Print Assumptions C15_refuted_acked_delete_lost.
